@@ -25,7 +25,8 @@ fn main() {
     for seed in seeds {
         let (out, desc): (vh::engine::sim::Outcome, serde_json::Value) = match family.as_str() {
             "catalogue" => {
-                let sc = gen_catalogue(seed);
+                let only: Vec<String> = a.str("kinds", "").split(',').filter(|x| !x.is_empty()).map(|x| x.to_string()).collect();
+                let sc = gen_catalogue_kinds(seed, &only);
                 let d = serde_json::json!({"seed": seed, "family": "catalogue", "item": sc.item, "state": format!("{:?}", sc.state), "server": sc.server_cfg.to_json(), "sched": format!("{:?}", sc.sched), "prof": [format!("{:?}", sc.prof[0]), format!("{:?}", sc.prof[1])], "witness_body": sc.witness_body});
                 (run_catalogue(&sc), d)
             }
